@@ -171,11 +171,17 @@ def run(rep, tier):
         reach.add(v)
         work.extend(adj.get(v, ()))
     comps = sccs(adj, reach)
-    walkers = re.compile(r"::(validate_\w+|collect_\w+|bound_kind_of|guard_\w+)$")
+    def ast_walker(o):
+        """Recursion over an already-built tree, not over input text: the function takes a value of an anda_kip::ast type (or a slice /
+        reference of one) and does not return a parser result."""
+        body = prog.fn(o.path)
+        ret = body.locals[0]
+        args = [o.locals[i] for i in range(1, o.argc + 1)]
+        return (not re.search(r"nom::|IResult|VerboseError", ret)) and any(re.search(r"anda_kip::(ast|request)::|serde_json::value::Value|anda_kip::parser::kml::\w+Statement", a) for a in args)
     witnesses = {}
     for comp in comps:
         names = sorted(prog.fns[x].path for x in comp)
-        if all(walkers.search(n) for n in names):
+        if all(ast_walker(prog.fns[x]) for x in comp):
             rep.note("R15.2-ast-walker:" + names[0].rsplit("::", 1)[1], "recursion over an already-built tree; depth bounded by the parser (text path) or serde_json's limit (tree path)")
             continue
         ws = {x: budget_witness(prog, prog.fns[x]) for x in comp}
